@@ -374,6 +374,10 @@ func engineValue(kind string, res *ValueResult) {
 	}
 }
 
+// ValueProcessXML is the document of the C16 engine scenarios: olive headers / properties / results
+// with literal values, references, and both (C15 round-trips it as well).
+func ValueProcessXML() string { return valueProcessXML }
+
 // sameStored: equality of a read-back value with the canonical form of what was stored; nil
 // without a declaration may read back as nil or as the type-less empty value (the property does
 // not pin its canonical form).
